@@ -2,10 +2,11 @@
  * Case file from mc/py_c04.py: decimal literals of the IEEE 488.2 NRf grammar (every sign / point / exponent /
  * white-space placement over short digit strings, long mantissas of 1..25 digits, rounding traps) and nondecimal
  * literals, each with the exactly computed expected result.  Every literal is sent as "R <literal>" through
- * SCPI_Input to handlers using SCPI_ParamDouble, SCPI_ParamFloat, SCPI_ParamNumber and the four integer readers;
+ * SCPI_Input to handlers using SCPI_ParamDouble, SCPI_ParamFloat, SCPI_ParamNumber and the four integer readers, and to
+ * handlers that fetch the token with SCPI_Parameter and convert it with the SCPI_ParamToXxx twin of each reader;
  * the reported values are compared as exact bit patterns.
  * In addition (computed here): every row of the exported unit table x every letter-case combination of its name x
- * {no, one, two} blanks x 4 literals through SCPI_ParamNumber (value x multiplier of the first case-insensitively
+ * {no, one, two} blanks x 8 literals (four with blanks or a tab at the exponent mark) through SCPI_ParamNumber (value x multiplier of the first case-insensitively
  * matching row, its base unit; multipliers of prefix+base names are also compared with IEEE 488.2 table 7-2), and
  * every special mnemonic in short and long form in every letter case.
  */
@@ -15,7 +16,23 @@
 enum { RD_DOUBLE, RD_FLOAT, RD_NUMBER, RD_I32, RD_U32, RD_I64, RD_U64 };
 static int rd, r_ok;
 static double r_d; static float r_f; static scpi_number_t r_n; static int32_t r_i32; static uint32_t r_u32; static int64_t r_i64; static uint64_t r_u64;
+static int via_to = 0;       /* 1: the handler fetches the token with SCPI_Parameter and converts it with the SCPI_ParamToXxx twin of the reader */
 static scpi_result_t h_r(scpi_t * c) {
+    if (via_to && rd != RD_NUMBER) {
+        scpi_parameter_t p;
+        memset(&p, 0, sizeof p);
+        r_ok = 0;
+        if (!SCPI_Parameter(c, &p, TRUE)) return SCPI_RES_OK;
+        switch (rd) {
+            case RD_DOUBLE: r_d = -777; r_ok = SCPI_ParamToDouble(c, &p, &r_d); break;
+            case RD_FLOAT: r_f = -777; r_ok = SCPI_ParamToFloat(c, &p, &r_f); break;
+            case RD_I32: r_i32 = -777; r_ok = SCPI_ParamToInt32(c, &p, &r_i32); break;
+            case RD_U32: r_u32 = 777; r_ok = SCPI_ParamToUInt32(c, &p, &r_u32); break;
+            case RD_I64: r_i64 = -777; r_ok = SCPI_ParamToInt64(c, &p, &r_i64); break;
+            default: r_u64 = 777; r_ok = SCPI_ParamToUInt64(c, &p, &r_u64); break;
+        }
+        return SCPI_RES_OK;
+    }
     switch (rd) {
         case RD_DOUBLE: r_d = -777; r_ok = SCPI_ParamDouble(c, &r_d, TRUE); break;
         case RD_FLOAT: r_f = -777; r_ok = SCPI_ParamFloat(c, &r_f, TRUE); break;
@@ -49,7 +66,7 @@ static int send(const char * lit, size_t ll, int reader) {
 
 static void bad(const char * cls, const char * reader, const char * lit, size_t ll, const char * got, const char * want) {
     char sig[96];
-    snprintf(sig, sizeof sig, "c04/%s/%s", cls, reader);
+    snprintf(sig, sizeof sig, "c04/%s/%s%s", cls, reader, via_to ? "/via-SCPI_Parameter+ParamTo" : "");
     mc_viol(sig, "literal [%s] read with %s: %s, expected %s (accepted=%d, errors=%d%s)", mc_e(lit, ll), reader, got, want, r_ok, tc_nerr, tc_nerr ? "" : "");
 }
 
@@ -118,7 +135,7 @@ static int ieq(const char * a, const char * b) { while (*a && *b) { if (tolower(
 
 static void check_units(void) {
     static const struct { const char * p; double m; } pre[] = { {"EX", 1e18}, {"PE", 1e15}, {"T", 1e12}, {"G", 1e9}, {"MA", 1e6}, {"K", 1e3}, {"M", 1e-3}, {"U", 1e-6}, {"N", 1e-9}, {"P", 1e-12}, {"F", 1e-15}, {"A", 1e-18} };
-    static const struct { const char * t; double v; } lits[4] = { {"1", 1.0}, {"2.5", 2.5}, {"-3e2", -300.0}, {".5", 0.5} };
+    static const struct { const char * t; double v; } lits[8] = { {"1", 1.0}, {"2.5", 2.5}, {"-3e2", -300.0}, {".5", 0.5}, {"1.5 E3", 1500.0}, {"2E 2", 200.0}, {"+4 e -2", 0.04}, {"12\tE+1", 120.0} };
     int u, first, p, b;
     for (u = 0; scpi_units_def[u].name; u++) {
         const char * name = scpi_units_def[u].name;
@@ -141,7 +158,7 @@ static void check_units(void) {
             }
         }
         if (nl > 6) continue;
-        for (mask = 0; mask < ((size_t) 1 << nl); mask++) for (sep = 0; sep < 3; sep++) for (l = 0; l < 4; l++) {
+        for (mask = 0; mask < ((size_t) 1 << nl); mask++) for (sep = 0; sep < 3; sep++) for (l = 0; l < 8; l++) {
             char lit[64], got[96], want[96];
             size_t o, i;
             double expv;
@@ -210,6 +227,7 @@ int main(int argc, char ** argv) {
             unsigned long long d; unsigned fbits; char ints[4][32];
             if (sscanf(p, "%llx %x %31s %31s %31s %31s", &d, &fbits, ints[0], ints[1], ints[2], ints[3]) != 6) continue;
             check_decimal(lit, ll, d, (uint32_t) fbits, ints);
+            via_to = 1; check_decimal(lit, ll, d, (uint32_t) fbits, ints); via_to = 0;
             /* every 4th literal also behind another message in the same input call, executed by a flush (nothing
              * terminates the literal there except the library's own NUL) */
             if ((mc_idx & 3) == 0 && ll < 300) { delivery = 1; check_decimal(lit, ll, d, (uint32_t) fbits, ints); delivery = 0; }
@@ -217,6 +235,7 @@ int main(int argc, char ** argv) {
             char v[40]; int nbits; unsigned long long d; unsigned fbits;
             if (sscanf(p, "%39s %d %llx %x", v, &nbits, &d, &fbits) != 4) continue;
             check_nondecimal(lit, ll, v, nbits, d, (uint32_t) fbits);
+            via_to = 1; check_nondecimal(lit, ll, v, nbits, d, (uint32_t) fbits); via_to = 0;
         }
     }
     fclose(f);
